@@ -195,3 +195,58 @@ Theorem self_reference_detected_proof : forall d f st l,
 Proof.
   intros d f st l H. unfold inprog in H. cbn [load_module]. unfold find_module. rewrite H. reflexivity.
 Qed.
+
+(** success means loaded: the library has its environment afterwards *)
+Theorem load_done_has_env_proof : forall d f st l st',
+  load_module f d st l = (st', Done) -> exists e, env_of st' l = Some e.
+Proof.
+  intros d f st l st' H. destruct f as [|f]; cbn [load_module] in H; [discriminate|].
+  destruct (find_module d st l) as [st1 mo] eqn:Ef.
+  destruct (find_step _ _ _ _ _ Ef) as (_ & Hmo & _).
+  destruct mo as [m|]; [|discriminate].
+  destruct (m_env m) as [e|] eqn:Eenv.
+  - injection H as <-. exists e. unfold env_of. rewrite <- Hmo. exact Eenv.
+  - destruct (m_meta m) as [imps|]; [|discriminate].
+    destruct (import_all_with (load_module f d) imps _) as [st3 o3].
+    destruct o3; try discriminate. injection H as <-.
+    eexists. unfold env_of. cbn [table]. rewrite lookup_update_same. reflexivity.
+Qed.
+
+(** failure never leaves a half-loaded library: no environment (so every later import of it fails too,
+    or loads it properly from scratch), whatever went wrong (missing library, cycle, fuel) *)
+Theorem failed_load_no_env_proof : forall d f st l st' o,
+  J st -> NoDup (evals st) -> load_module f d st l = (st', o) -> o <> Done ->
+  env_of st l = None -> env_of st' l = None /\ body_evals st' l = body_evals st l.
+Proof.
+  intros d f st l st' o HJ Hn H Ho He.
+  assert (Hcount : forall s, ~ In l (evals s) -> body_evals s l = 0)
+    by (intros s Hs; unfold body_evals; apply count_occ_not_In; exact Hs).
+  assert (Hnin : ~ In l (evals st)) by (intro Hin; destruct (HJ l Hin) as [e H0]; congruence).
+  destruct f as [|f]; cbn [load_module] in H.
+  - injection H as <- <-. split; [exact He | reflexivity].
+  - destruct (find_module d st l) as [st1 mo] eqn:Ef.
+    destruct (find_ok _ _ _ _ _ Ef HJ Hn) as (HJ1 & Hn1 & Hs1).
+    destruct (find_step _ _ _ _ _ Ef) as (He1 & Hmo & _).
+    assert (Hnin1 : ~ In l (evals st1)) by (rewrite He1; exact Hnin).
+    destruct mo as [m|].
+    + destruct (m_env m) as [e|] eqn:Eenv; [injection H as <- <-; congruence|].
+      assert (Hx1 : env_of st1 l = None) by (unfold env_of; rewrite <- Hmo; exact Eenv).
+      destruct (m_meta m) as [imps|] eqn:Emeta.
+      * set (st2 := set_module st1 l {| m_env := None; m_meta := ErrorForm |}) in H.
+        assert (Hx2 : inprog st2 l) by (unfold inprog, st2, set_module; cbn [table]; apply lookup_update_same).
+        assert (HJ2 : J st2).
+        { intros k Hin. change (evals st2) with (evals st1) in Hin. destruct (HJ1 k Hin) as [e0 H0]. exists e0.
+          assert (k <> l) by (intro; subst k; congruence). unfold env_of in *. unfold st2, set_module. cbn [table].
+          rewrite lookup_update_other; assumption. }
+        destruct (import_all_with (load_module f d) imps st2) as [st3 o3] eqn:Ei.
+        destruct (import_all_ok d f (load_ok d f) _ _ _ _ Ei HJ2 Hn1) as (_ & _ & Hs23).
+        destruct (so_inprog _ _ Hs23 l Hx2) as [Hx3 Hx3e].
+        destruct o3; try (injection H as <- <-; split;
+          [unfold env_of; unfold inprog in Hx3; rewrite Hx3; reflexivity
+          | rewrite (Hcount st3) by (intro Hin; apply Hnin1; exact (Hx3e Hin)); rewrite (Hcount st Hnin); reflexivity]).
+        injection H as <- <-. congruence.
+      * injection H as <- <-. split; [exact Hx1|]. rewrite (Hcount st1 Hnin1), (Hcount st Hnin). reflexivity.
+    + injection H as <- <-. split.
+      * unfold env_of. rewrite <- Hmo. reflexivity.
+      * rewrite (Hcount st1 Hnin1), (Hcount st Hnin). reflexivity.
+Qed.
